@@ -53,6 +53,7 @@ def run(ctx):
     ctx.do(rule_all_answers_filtered)
     ctx.do(rule_filters_only_grow)
     ctx.do(rule_scans_complete)
+    ctx.do(rule_shortcut_values_are_entry_names)
     from . import C11 as _C11
     ctx.do(_C11.rule_memory_query_scans_everything, rule_id="C12.scans-complete")
     from .pitfalls import rule_groupby_sorted, rule_single_use_iterators
@@ -746,3 +747,37 @@ def rule_all_answers_filtered(ctx):
                   "a memory query does not scan every stored version", file=fi.module.relpath, line=fi.node.lineno,
                   function=fi.qualname, expected="chain over value.all_versions.values() for every family", found="changed")
     run.floor(R, 7)
+
+
+def rule_shortcut_values_are_entry_names(ctx):
+    """The type / id shortcut looks a whitelisted filter VALUE up as a directory entry (`os.stat(os.path.join(dir, value +
+    ext))`).  A value is whatever the caller wrote in the filter: one that is no single file name matches no stored object (so
+    the answer is "nothing for this value"), but as a path it raises (too long, embedded NUL, 'x.json/y') or -- 'ipv4-addr/',
+    './ipv4-addr' -- names the same entry a second time and the object is returned twice.  The loop that joins the values into
+    paths skips every value that is not its own basename BEFORE the join, and tolerates the one error a well-formed but
+    over-long name can still give (ENAMETOOLONG) like it tolerates ENOENT."""
+    run = ctx.run
+    prog = ctx.prog
+    R = "C12.optimiser-table"
+    fi = prog.func(FS + "::_get_matching_dir_entries")
+    rel = fi.module.relpath
+    loops = [lp for lp in body_walk(fi.node) if isinstance(lp, ast.For) and norm(lp.iter).endswith(".values")]
+    if len(loops) != 1:
+        raise AnalysisError("_get_matching_dir_entries: the loop over the whitelisted values was not found (%d)" % len(loops))
+    lp = loops[0]
+    joins = [c for c in ast.walk(lp) if isinstance(c, ast.Call) and norm(c.func) == "os.path.join"]
+    if not joins:
+        raise AnalysisError("_get_matching_dir_entries: no path is built from the whitelisted value")
+    skips = [st_ for st_ in ast.walk(lp) if isinstance(st_, ast.If) and "os.path.basename(" in norm(st_.test)
+             and st_.body and isinstance(st_.body[-1], ast.Continue) and st_.lineno < joins[0].lineno]
+    run.check(bool(skips), R, key(rel, fi.qualname, "whitelisted-value-is-an-entry-name"),
+              "a whitelisted type / id filter value is joined into a path as it is: a value that is no single file name raises "
+              "(OSError 36, ValueError for NUL, NotADirectoryError) where the memory store answers, and an alias of an entry "
+              "('ipv4-addr/', './<id>') returns the object more than once", file=rel, line=joins[0].lineno, function=fi.qualname,
+              expected="if os.path.basename(name) != name ...: continue, before os.path.join", found=short(joins[0]))
+    handlers = [h for t in ast.walk(lp) if isinstance(t, ast.Try) for h in t.handlers]
+    tolerated = " ".join(norm(x) for h in handlers for x in ast.walk(h) if isinstance(x, ast.Compare))
+    run.check("ENOENT" in tolerated and "ENAMETOOLONG" in tolerated, R, key(rel, fi.qualname, "over-long-name-is-no-entry"),
+              "an over-long (but otherwise well-formed) filter value raises OSError(ENAMETOOLONG) out of the query instead of "
+              "matching nothing", file=rel, line=handlers[0].lineno if handlers else lp.lineno, function=fi.qualname,
+              expected="errno in (ENOENT, ENAMETOOLONG) tolerated", found=tolerated[:120])
